@@ -579,10 +579,9 @@ func (d *Directory) handleModify(t TestingT) func(w *gldap.ResponseWriter, r *gl
 				}
 			case gldap.ReplaceAttribute:
 				if foundAttr != nil {
-					// we're updating what the ptr points at, so disable lint of
-					// unused var
-					//nolint:staticcheck
-					foundAttr = gldap.NewEntryAttribute(chg.Modification.Type, chg.Modification.Vals)
+					// update what the ptr points at, so the entry's attribute
+					// gets the new values
+					*foundAttr = *gldap.NewEntryAttribute(chg.Modification.Type, chg.Modification.Vals)
 				}
 			}
 		}
